@@ -693,12 +693,23 @@ func (lb *LoadBalancer) proxyRequest(backend *Backend, w http.ResponseWriter, r 
 		statusCode:     http.StatusOK, // Default status code
 	}
 
+	// Decrement the connection count when done, also when ReverseProxy aborts the
+	// handler (it panics with http.ErrAbortHandler if the backend fails mid-body)
+	completed := false
+	defer func() {
+		backend.DecrementConnections()
+		lb.metricsCollector.UpdateBackendConnections(backend.Name, backend.GetActiveConnections())
+		if !completed {
+			// aborted exchange: account for it as a failed request
+			responseTime := time.Since(startTime)
+			lb.metricsCollector.RecordResponse(false, responseTime)
+			lb.metricsCollector.RecordBackendRequest(backend.Name, false, responseTime)
+		}
+	}()
+
 	// Forward the request to the selected backend
 	backend.ReverseProxy.ServeHTTP(rw, r)
-
-	// Decrement the connection count when done
-	backend.DecrementConnections()
-	lb.metricsCollector.UpdateBackendConnections(backend.Name, backend.GetActiveConnections())
+	completed = true
 
 	// Record metrics and handle passive health checks
 	lb.recordRequestMetrics(backend, rw.statusCode, startTime, r)
